@@ -27,6 +27,7 @@ import (
 	clienttypes "github.com/teleport-network/teleport/x/xibc/core/client/types"
 	"github.com/teleport-network/teleport/x/xibc/core/host"
 	packettypes "github.com/teleport-network/teleport/x/xibc/core/packet/types"
+	"github.com/teleport-network/teleport/x/xibc"
 	"github.com/teleport-network/teleport/x/xibc/exported"
 
 	"verifharness/hlib"
@@ -52,6 +53,58 @@ type Op struct {
 type GenIn struct {
 	Pairs     []PairIn `json:"pairs"`
 	AggParams [2]bool  `json:"agg_params"`
+	Xibc      *XibcIn  `json:"xibc,omitempty"` // nil: the default xibc genesis
+}
+
+// a generated xibc genesis: client / consensus states are built by the harness from (type, height, variant), every
+// key / value / data byte string travels as hex
+type ClientIn struct {
+	Name  string `json:"name"`
+	T     string `json:"t"`
+	Rev   string `json:"rev,omitempty"`
+	H     string `json:"h,omitempty"`
+	N     int    `json:"n,omitempty"`
+	Epoch uint64 `json:"epoch,omitempty"`
+	Vals  int    `json:"vals,omitempty"`
+	Bad   bool   `json:"bad,omitempty"` // a client state its own Validate refuses
+}
+type ConsIn struct {
+	Rev  string `json:"rev"`
+	H    string `json:"h"`
+	T    string `json:"t"`
+	Salt int    `json:"salt,omitempty"`
+	Bad  bool   `json:"bad,omitempty"` // a consensus state its own ValidateBasic refuses
+}
+type ConsGroupIn struct {
+	Name   string   `json:"name"`
+	States []ConsIn `json:"states"`
+}
+type MetaIn struct {
+	Name string      `json:"name"`
+	KVs  [][2]string `json:"kvs"`
+}
+type RelIn struct {
+	Address   string   `json:"address"`
+	Chains    []string `json:"chains"`
+	Addresses []string `json:"addresses"`
+}
+type PktIn struct {
+	Src  string `json:"src"`
+	Dst  string `json:"dst"`
+	Seq  string `json:"seq"`
+	Data string `json:"data,omitempty"`
+}
+type XibcIn struct {
+	Clients     []ClientIn    `json:"clients"`
+	Consensus   []ConsGroupIn `json:"consensus"`
+	Metadata    []MetaIn      `json:"metadata"`
+	Native      string        `json:"native"`
+	Relayers    []RelIn       `json:"relayers"`
+	Acks        []PktIn       `json:"acks"`
+	Commitments []PktIn       `json:"commitments"`
+	Receipts    []PktIn       `json:"receipts"`
+	SendSeqs    []PktIn       `json:"send_seqs"`
+	Defect      string        `json:"defect,omitempty"` // which near-miss the generator planted (diagnostics / distribution only)
 }
 type PairIn struct {
 	Erc20   string   `json:"erc20"`
@@ -137,6 +190,12 @@ func (w *World) do(op Op) (obs OpObs) {
 func (w *World) do1(op Op) OpObs {
 	a := w.A.App
 	ck := a.XIBCKeeper.ClientKeeper
+	if w.tmGone {
+		switch op.K {
+		case "tm_setup", "tm_update", "send", "relay", "recv":
+			return OpObs{Class: 4, Note: "the two-chain Tendermint path of this history was reset"}
+		}
+	}
 	switch op.K {
 	case "tm_setup":
 		w.needTM()
@@ -417,6 +476,12 @@ func (w *World) do1(op Op) OpObs {
 		return OpObs{Class: c, Note: note}
 	case "commit":
 		w.commit(w.A)
+		return OpObs{}
+	case "reset": // x/xibc ResetStates (the upgrade handler's call): everything but the native chain name is dropped
+		xibc.ResetStates(w.ctx(), a.GetKey(host.StoreKey), *a.XIBCKeeper)
+		w.clients = map[string]*cinfo{}
+		w.pendAB = nil
+		w.tmGone = true
 		return OpObs{}
 	}
 	return OpObs{Class: 4, Note: "unknown op " + op.K}
